@@ -58,3 +58,6 @@ add('C14', 'exploration', 'bounded exhaustive enumeration of region bodies over 
 add('C16', 'model_checking', 'explicit-state exploration of the path-distinguishing self-product of each lexer rule\'s NFA (model generated from the rule source, conformance-checked exhaustively against re)',
     'For every rule of the current table an epsilon-NFA is derived mechanically from the re parse tree; after multiplicity-preserving epsilon elimination all reachable states of its self-product with a divergence bit are explored from every (q,q,0); exponential ambiguity iff (q,q,1) is reachable. The model is bound to the code by checking every word over the rule\'s own code-point classes up to length 5-6 against re (traces_validated_against_impl), and every loop state yields a pump string that the real tokenizer must finish within a CPU budget (in a killable child process).',
     'Trusted: CPython re as a backtracking matcher over the modelled paths; look-arounds/back-references are over-approximated (only add paths); timing uses CPU time, a wide margin and a re-measurement.', 'DESIGN.md 4/C16')
+add('C20', 'model_checking', 'stateless preemption-bounded exploration of real threads under a cooperative scheduler (sys.settrace, scheduler-aware lock) + explicit-state exploration of call histories over a digest of the global state',
+    'All interleavings of 2-3 real threads through lexer creation/initialisation (scheduling points at every line, and at every opcode, of lexer.py outside the scan loop; preemption bound 1-3) and of pairs of concurrent parse/split/format calls (function-entry granularity, bound 1-2); every history of <= 3-4 operations from a 15-operation alphabet, each in a forked child, plus BFS over the digest-quotient graph of global states to fixpoint; in every state a probe suite must return what a fresh interpreter returns. Every model run executes the implementation itself.',
+    'Trusted: CPython with the GIL (no sub-bytecode interleavings); the digest coverage list in vlib/digest.py; re\'s own pattern cache is outside.', 'DESIGN.md 4/C20')
